@@ -1,4 +1,5 @@
 import RtenVerif.Lemmas.LoaderConstMode
+import RtenVerif.Props.C21
 
 /-!
 C05 / audit item M1: the guards of the explicit panic branches of `Model/LoaderConst.lean`
@@ -60,30 +61,95 @@ theorem memRange_ok {o l f s e : Nat} (h : ExtData.memRange o l f = .ok (s, e)) 
     · split at h2 <;> omega
     · split at h2 <;> omega
 
-/-- Whatever `MemLoader::load` returns is a valid slice of the registered buffer, starting at
-the requested offset and no longer than the requested length (C21's `memRange`). -/
-theorem loadExt_valid {e : Ext} {d : ExtSlice} (h : loadExt e = .ok (some d)) :
-    d.Valid ∧ ∃ len off buf, e = .ref len off buf ∧ d.start = off.toNat ∧
-      d.bufLen = buf.toNat ∧ d.stop - d.start ≤ len.toNat := by
+/-- Memory-mapped external data files are shorter than `u64::MAX` bytes (they are Rust slices:
+at most `isize::MAX`).  Needed for `MmapLoader` only, whose range end is recomputed unchecked. -/
+def ExtFits : Ext → Prop
+  | .ref .mmap _ _ buf => buf.toNat < ExtData.U64_MAX
+  | _ => True
+
+/-- Whatever a data loader returns is a valid slice of its storage, it is no longer than the
+length the model file names, and the bytes it denotes lie inside the external file / buffer at
+the offset the model file names (C21: `memRange`, `c21_mmap_range_sound`, `c21_file_read_exact'`). -/
+theorem loadExt_valid {e : Ext} {d : ExtSlice} (hfit : ExtFits e) (h : loadExt e = .ok (some d)) :
+    d.Valid ∧ ∃ kind len off buf, e = .ref kind len off buf ∧ d.stop - d.start ≤ len.toNat ∧
+      off.toNat + (d.stop - d.start) ≤ buf.toNat ∧
+      (kind = .file ∨ d.start = off.toNat) := by
   cases e with
   | none => simp [loadExt] at h
   | badLocation => simp [loadExt] at h
   | badMeta => simp [loadExt] at h
   | loadErr => simp [loadExt] at h
-  | ref len off buf =>
-    simp only [loadExt] at h
+  | ref kind len off buf =>
     have ho := M.toNat_lt_W off
     have hb := M.toNat_lt_W buf
+    have hl := M.toNat_lt_W len
     have hW : wordSize = 18446744073709551616 := rfl
     have hU : ExtData.U64_MAX = 18446744073709551615 := rfl
-    split at h
-    · cases h
-    · next s e' heq =>
-      cases h
-      obtain ⟨h1, h2, h3, h4⟩ := memRange_ok heq
-      have h3' := h3 (by omega)
-      subst h1
-      exact ⟨⟨h3', h2, hb⟩, len, off, buf, rfl, rfl, rfl, h4⟩
+    cases kind with
+    | mem =>
+      simp only [loadExt] at h
+      split at h
+      · cases h
+      · next s e' heq =>
+        cases h
+        obtain ⟨h1, h2, h3, h4⟩ := memRange_ok heq
+        have h3' := h3 (by omega)
+        subst h1
+        refine ⟨⟨h3', h2, hb⟩, .mem, len, off, buf, rfl, h4, ?_, Or.inr rfl⟩
+        show off.toNat + (e' - off.toNat) ≤ buf.toNat
+        omega
+    | mmap =>
+      simp only [loadExt] at h
+      split at h
+      · cases h
+      · next s e' heq =>
+        cases h
+        obtain ⟨h1, h2, h3⟩ := ExtData.c21_mmap_range_sound _ _ _ _ _ hfit heq
+        subst h1; subst h2
+        refine ⟨⟨?_, h3, hb⟩, .mmap, len, off, buf, rfl, ?_, ?_, Or.inr rfl⟩
+        · show off.toNat ≤ off.toNat + len.toNat
+          omega
+        · show off.toNat + len.toNat - off.toNat ≤ len.toNat
+          omega
+        · show off.toNat + (off.toNat + len.toNat - off.toNat) ≤ buf.toNat
+          omega
+    | file =>
+      simp only [loadExt] at h
+      split at h
+      · cases h
+      · next bytes heq =>
+        cases h
+        obtain ⟨h1, h2, _⟩ := ExtData.c21_file_read_exact' _ _ _ _ heq
+        rw [List.length_replicate] at h2
+        refine ⟨⟨Nat.zero_le _, Nat.le_refl _, by rw [h1]; exact hl⟩, .file, len, off, buf, rfl,
+          ?_, ?_, Or.inl rfl⟩
+        · show bytes.length - 0 ≤ len.toNat
+          omega
+        · show off.toNat + (bytes.length - 0) ≤ buf.toNat
+          omega
+
+/-- `offset as usize + length as usize` in `MmapLoader::load` cannot overflow once the range
+check passed (for files shorter than `u64::MAX`). -/
+theorem extAddPanics_false {e : Ext} (hfit : ExtFits e) {x : Option ExtSlice}
+    (h : loadExt e = .ok x) (ovf : Bool) : extAddPanics ovf e = false := by
+  cases e with
+  | ref kind len off buf =>
+    cases kind with
+    | mmap =>
+      simp only [loadExt] at h
+      split at h
+      · cases h
+      · next s e' heq =>
+        obtain ⟨_, _, h3⟩ := ExtData.c21_mmap_range_sound _ _ _ _ _ hfit heq
+        have hb := M.toNat_lt_W buf
+        have : ¬ wordSize ≤ off.toNat + len.toNat := by omega
+        simp [extAddPanics, this]
+    | mem => rfl
+    | file => rfl
+  | none => rfl
+  | badLocation => rfl
+  | badMeta => rfl
+  | loadErr => rfl
 
 /-- How many elements a count step may claim: they are present in the data source. -/
 def CntBacked (size : Nat) (raw : Option U) (ext : Option ExtSlice) (typed : U) (len : Nat) : Prop :=
